@@ -249,6 +249,9 @@ def tcert : TCert :=
 /-- the largest `w` -/
 def wMaxC : Nat := allI.foldl (fun n p => max n (byteAt wM p.2)) 0
 
+/-- diagnostics for the harness: the states whose code fails the check (empty when `term_table_facts` holds) -/
+def termFailing : List String := (St.all.filter fun s => !chkCode tcert s).map St.name
+
 /-! ## generic proofs: any certificate that passes the check bounds the three budgets -/
 
 theorem St.mem_all' (st : St) : st ∈ St.all := by
@@ -947,7 +950,7 @@ theorem next_term {C : TCert} {wMax : Nat} (hV : TValid C wMax) (d : Src) (o : O
         exact byteLoop_term hV d o D fuel sc1 hI1 (by simpa using hq1) (by omega) (by omega)
 
 theorem tinv_init (C : TCert) : TInv C Sc.init :=
-  ⟨fun _ _ h => nomatch h, trivial, rfl⟩
+  ⟨fun _ _ h => (nomatch h), trivial, rfl⟩
 
 theorem q_init {C : TCert} {wMax : Nat} (hV : TValid C wMax) (d : Src) : Q C d 0 Sc.init := by
   unfold Q
@@ -995,5 +998,47 @@ theorem reach_tinv {C : TCert} {wMax : Nat} (hV : TValid C wMax) {d : Src} {o : 
   | @event sc sc' ev rest lex _ hf hp ih =>
     exact (shift_term hf hp).2.inv ih
   | @params sc p _ ih => exact ⟨ih.top, ih.conf, ih.rew⟩
+
+theorem Q.mono {C : TCert} {d : Src} {D D' : Nat} {sc : Sc} (h : Q C d D sc) (hle : D' ≤ D) : Q C d D' sc := by
+  unfold Q at h ⊢
+  omega
+
+/-- … and the lexeme potential (with no lexeme counted as delivered) -/
+theorem reach_q {C : TCert} {wMax : Nat} (hV : TValid C wMax) {d : Src} {o : Oracle} {sc : Sc}
+    (h : Reach d o sc) : Q C d 0 sc := by
+  induction h with
+  | init => exact q_init hV d
+  | @step sc sc' hR hle hs ih =>
+    have := byteStep_term hV d o sc (reach_tinv hV hR) hle
+    rw [hs] at this
+    exact this.q 0 ih
+  | @event sc sc' ev rest lex _ hf hp ih =>
+    exact ((shift_term hf hp).2.q ih).mono (Nat.zero_le _)
+  | @params sc p _ ih => exact ih
+
+/-- the number of lexemes of a file is at most `size + 1` -/
+theorem lexAll_count {C : TCert} {wMax : Nat} (hV : TValid C wMax) (d : Src) (o : Oracle)
+    (hb : K * d.size + wMax + 2 ≤ 4 * (d.size + 2)) :
+    ∀ (n : Nat) (sc : Sc) (acc : List Lexeme), TInv C sc → Q C d acc.length sc →
+      (lexAll d o n sc acc).1.length ≤ d.size + 1
+  | 0, sc, acc, _, hq => by
+    unfold Q at hq
+    simp only [lexAll, List.length_reverse]
+    omega
+  | n + 1, sc, acc, hI, hq => by
+    have hacc : acc.length ≤ d.size + 1 := by unfold Q at hq; omega
+    simp only [lexAll]
+    have hs := next_term hV d o acc.length (4 * (d.size + 2)) sc hI hq hb
+    cases hnx : next d o (4 * (d.size + 2)) sc with
+    | error s => simpa using hacc
+    | ok p =>
+      obtain ⟨lex, sc'⟩ := p
+      rw [hnx] at hs
+      cases lex with
+      | none => simpa using hacc
+      | some l =>
+        simp only
+        obtain ⟨hI', hq'⟩ := hs
+        exact lexAll_count hV d o hb n sc' (l :: acc) hI' (by simpa using hq')
 
 end JSight.ScanTerm
